@@ -129,10 +129,11 @@ func checkAmbiguities(pair *seqpairdist, stepsize int) (ambig []bool) {
 	return
 }
 
-func check2SequencesDiff(pair *seqpairdist) (ret bool) {
+// Returns true if the two sequences differ at one of the selected sites (ambiguities apart)
+func check2SequencesDiff(pair *seqpairdist, selected []bool) (ret bool) {
 	var i int
 	for i = 0; i < len(pair.seq1); i++ {
-		if (!pair.seq1Ambigu[i] && !pair.seq2Ambigu[i]) && (pair.seq1[i] != pair.seq2[i]) {
+		if selected[i] && (!pair.seq1Ambigu[i] && !pair.seq2Ambigu[i]) && (pair.seq1[i] != pair.seq2[i]) {
 			return true
 		}
 	}
